@@ -166,6 +166,12 @@ func c03Marshal(idx index.Index) []byte {
 	return b.Bytes()
 }
 
+// c03ReadSeeker hides every method of its source but Read and Seek.
+type c03ReadSeeker struct{ rs io.ReadSeeker }
+
+func (r c03ReadSeeker) Read(p []byte) (int, error)                { return r.rs.Read(p) }
+func (r c03ReadSeeker) Seek(off int64, whence int) (int64, error) { return r.rs.Seek(off, whence) }
+
 func runC03(t *mon.T, raw json.RawMessage) {
 	var d c03Desc
 	if err := json.Unmarshal(raw, &d); err != nil {
@@ -412,6 +418,18 @@ func runC03(t *mon.T, raw json.RawMessage) {
 		if d.Container == "v1" || d.Container == "v1-nullpad" || d.Container == "v2-indexless" {
 			idx, err := carv2.ReadOrGenerateIndex(bytes.NewReader(file), append(opts, carv2.UseIndexCodec(multicodec.CarMultihashIndexSorted))...)
 			judge("ReadOrGenerateIndex(generate)", "mh", idx, err)
+			// the same from a source that can Read and Seek and nothing else (no ReadAt, no ReadByte)
+			idx, err = carv2.ReadOrGenerateIndex(c03ReadSeeker{bytes.NewReader(file)}, append(opts, carv2.UseIndexCodec(multicodec.CarMultihashIndexSorted))...)
+			judge("ReadOrGenerateIndex(generate, Read+Seek only)", "mh", idx, err)
+		}
+		if d.Container == "v2" || d.Container == "v2-pad" {
+			// an embedded index, read from a Read+Seek-only source
+			if idx, err := carv2.ReadOrGenerateIndex(c03ReadSeeker{bytes.NewReader(file)}, opts...); err != nil {
+				t.Violatef("ReadOrGenerateIndex(read, Read+Seek only)/valid-input/error", "ReadOrGenerateIndex on a valid %s from a Read+Seek-only source: %v", d.Container, err)
+			} else if idx == nil {
+				t.Violatef("ReadOrGenerateIndex(read, Read+Seek only)/nil-index", "nil index without error")
+			}
+			t.Cover("read-or-generate:embedded-index-from-a-read+seek-only-source")
 		}
 	}
 	// seekable vs stream: identical serialisation, or lookup-identical when digests repeat
